@@ -45,7 +45,7 @@ ValueStrictOps ==
     [] OTHER -> {}
 AllOps == CtorOps \cup {"copy", "from_hex", "logic", "flip", "swap", "swapadj", "cofactors", "fromcof",
                         "setbit", "value", "rel", "info", "decomp", "unate", "text", "bdd",
-                        "iter_start", "iter_next", "vnext", "load", "reload", "conv_rt", "conv_try"}
+                        "iter_start", "iter_next", "vnext", "load", "reload", "conv_rt", "conv_try", "clone_from"}
 OutcomeStrictOps == IF MODE = "C17" THEN AllOps ELSE ValueStrictOps
 WFStrict == MODE = "C02"
 
